@@ -216,7 +216,7 @@ public:
             std::string fn = smt2_dir + "/q" + std::to_string(res->smt2_files.size()) + "_" +
                 (r == z3::unsat ? "unsat" : (r == z3::sat ? "sat" : "unknown")) + ".smt2";
             std::ofstream f(fn);
-            f << "; check " << name << "\n" << g.smt2({neg}) << "(check-sat)\n";
+            f << "(set-logic ALL)\n; check " << name << "\n" << g.smt2({neg});   // to_smt2() ends with (check-sat)
             res->smt2_files.push_back(fn);
         }
         if (r == z3::unsat)
